@@ -5,6 +5,7 @@ import pandas as pd
 from harness import stubs
 from harness import tlc as T
 from harness.core import canon
+from harness.decode import iround
 
 REJECT = (ValueError, TypeError, NotImplementedError)
 
@@ -69,10 +70,10 @@ def observe(cfg, origin=0, variant=0):
                 m = mev[mi]
                 mi += 1
                 events.append({"ev": "metric", "times": [], "fh": [], "xtimes": [], "upd": False,
-                               "a": [int(round(v)) for v in m["a"]], "b": [int(round(v)) for v in m["b"]]})
+                               "a": [iround(v) for v in m["a"]], "b": [iround(v) for v in m["b"]]})
     rows = []
     for _, r in res.iterrows():
-        rows.append({"score": int(round(r["test_Rec"])), "cutoff": int(r["cutoff"]) - origin,
+        rows.append({"score": iround(r["test_Rec"]), "cutoff": iround(r["cutoff"]) - origin,
                      "len": int(r["len_train_window"])})
     o = {"rej": False, "events": events, "rows": rows}
     if mi != len(mev):
